@@ -35,7 +35,7 @@ def all_options():
         yield dict(zip(keys, vals))
 
 
-def sweep(ck, datasets, options, seeds, label, max_traces=4000, num_iters=3):
+def sweep(ck, datasets, options, seeds, label, max_traces=4000, num_iters=3, offset=0.0):
     tasks = []
     for (n, dims) in datasets:
         for oi, o in enumerate(options):
@@ -45,7 +45,7 @@ def sweep(ck, datasets, options, seeds, label, max_traces=4000, num_iters=3):
     def task(arg):
         n, dims, s, oi = arg
         o = dict(options[oi], num_iters=num_iters)
-        r = chainlib.run_one(n, dims, 1000 * s + oi, o)
+        r = chainlib.run_one(n, dims, 1000 * s + oi, o, offset=offset)
         r.pop("results", None)
         r.pop("events", None)
         return r
@@ -166,6 +166,10 @@ def run(corrupt=None):
     # a finite positive time limit on some of them (expires at an arbitrary iteration)
     long_opts = [dict(o, max_time=(0.02 if i % 5 == 0 else o["max_time"])) for i, o in enumerate(long_opts)]
     spec_traces += sweep(ck, [(5, 1), (6, 2)] if thorough else [(5, 1)], long_opts, seeds, "long_runs_5_points", max_traces=(600 if thorough else 200), num_iters=15)
+    # heavy data points (large clusters, deep sequencing, many samples): log-likelihoods around -900 per sample row,
+    # incremental SMC weights far below the range of exp()
+    heavy_opts = [o for o in long_opts if o["max_time"] == float("inf")][:(120 if thorough else 40)]
+    spec_traces += sweep(ck, [(3, 3), (4, 2)] if thorough else [(3, 3)], heavy_opts, seeds[:1], "heavy_data_points", max_traces=100, num_iters=6, offset=900.0)
     cli_runs(ck, thorough)
     if corrupt == "trace" and spec_traces:
         ev = spec_traces[0]["events"]
